@@ -49,10 +49,11 @@ type engine struct {
 }
 
 var engines = []engine{
-	{Name: "store-sim", Pkg: "./harness/store", Kind: "real storage/writer/reader/query code over simulated disk; histories, restarts, kills, I/O errors", Props: []string{"C01", "C03", "C04", "C05", "C12", "C26"}},
+	{Name: "store-sim", Pkg: "./harness/store", Kind: "real storage/writer/reader/query code over simulated disk; histories, restarts, kills, I/O errors", Props: []string{"C01", "C02", "C03", "C04", "C05", "C12", "C26"}},
 	{Name: "query-sim", Pkg: "./harness/query", Kind: "real query engine over a database written by the real writer; worker count, memory mode, goroutine schedule and reader/writer interleaving decided by the simulator", Props: []string{"C06", "C08", "C11", "C30", "C31"}},
 	{Name: "capture-sim", Pkg: "./harness/capture", Sync: true, SingleP: true, Kind: "real capture manager with simulated packet sources, fake clock, simulated disk and seeded scheduler at every seam (source calls, mutexes, file-system operations)", Props: []string{"C20", "C21", "C22", "C23", "C27", "C29"}},
 	{Name: "dist-sim", Pkg: "./harness/dist", SingleP: true, Kind: "real distributed query runner, API client querier and HTTP client stack over a simulated transport and clock; reply order, delays, losses, errors and partitions decided by the simulator", Props: []string{"C15", "C31"}},
+	{Name: "stream-sim", Pkg: "./harness/enc", Kind: "real compressor implementations (cgo and pure-Go back ends in one binary) driven as stateful stream code with dirty scratch buffers and fault-injecting writers/readers", Props: []string{"C07"}},
 	{Name: "merge-sim", Pkg: "./harness/merge", Kind: "real MergeDatabases over a read-only source disk and a destination disk; generated database pairs; kills at every mutating operation", Props: []string{"C24", "C25"}},
 }
 
@@ -88,6 +89,8 @@ var propCfgs = map[string]propCfg{
 	"C27": {Level: "exploration", Quick: tierCfg{Runs: 40000, BudgetS: 40, MinS: 30}, Thorough: tierCfg{Runs: 4000000, BudgetS: 600, MinS: 120}},
 	"C29": {Level: "exploration", Quick: tierCfg{Runs: 40000, BudgetS: 40, MinS: 30}, Thorough: tierCfg{Runs: 4000000, BudgetS: 600, MinS: 120}},
 	"C15": {Level: "exploration", Quick: tierCfg{Runs: 40000, BudgetS: 40, MinS: 30}, Thorough: tierCfg{Runs: 4000000, BudgetS: 600, MinS: 120}},
+	"C07": {Level: "exploration", Quick: tierCfg{Runs: 400000, BudgetS: 35, MinS: 30}, Thorough: tierCfg{Runs: 40000000, BudgetS: 600, MinS: 120}},
+	"C02": {Level: "exploration", Quick: tierCfg{Runs: 4000, BudgetS: 35, MinS: 30}, Thorough: tierCfg{Runs: 400000, BudgetS: 600, MinS: 120}},
 	"C05": {Level: "fault_enumeration", Quick: tierCfg{Runs: 96, BudgetS: 35, MinS: 30}, Thorough: tierCfg{Runs: 4000, BudgetS: 600, MinS: 120}},
 }
 
@@ -257,7 +260,7 @@ func envInt(k string, d int64) int64 {
 
 // build rewrites the current /repo tree and compiles the engine's harness binary.
 func build(verifDir, scratch string, eng *engine, mut *mutant, extraTags []string, suffix string) (string, *rewrite.Result) {
-	spec := rewrite.Spec{Repo: repo, FSPkgs: fsPkgs}
+	spec := rewrite.Spec{Repo: repo, FSPkgs: fsPkgs, EncSeam: true}
 	if eng.Sync {
 		spec.SyncPkgs = syncPkgs
 	}
@@ -368,9 +371,11 @@ func runWorkers(bin, scratch, id, tier string, seed int64, workers int, tc tierC
 // violation record for the run that was executing (known from the marker file). A panic whose
 // first non-runtime frame is harness code is a machinery failure and returns nil.
 func crashViolation(id, output, marker string, seed int64) *h.VRec {
-	i := strings.Index(output, "panic: ")
-	if i < 0 {
-		i = strings.Index(output, "fatal error: ")
+	i := -1
+	for _, trigger := range []string{"panic: ", "fatal error: ", "SIGSEGV: ", "SIGBUS: ", "SIGABRT: ", "SIGFPE: ", "SIGILL: "} {
+		if j := strings.Index(output, trigger); j >= 0 && (i < 0 || j < i) {
+			i = j // a signal raised in C code (cgo compressors) kills the process without a Go panic
+		}
 	}
 	if i < 0 {
 		return nil
@@ -378,7 +383,8 @@ func crashViolation(id, output, marker string, seed int64) *h.VRec {
 	lines := strings.Split(output[i:], "\n")
 	fn := ""
 	for _, l := range lines[1:] {
-		if l == "" || strings.HasPrefix(l, "\t") || strings.HasPrefix(l, "goroutine ") || strings.HasPrefix(l, "runtime.") || strings.HasPrefix(l, "panic(") || strings.HasPrefix(l, "[signal") {
+		if l == "" || strings.HasPrefix(l, "\t") || strings.HasPrefix(l, "goroutine ") || strings.HasPrefix(l, "runtime.") || strings.HasPrefix(l, "panic(") || strings.HasPrefix(l, "[signal") ||
+			!strings.Contains(l, "(") || !strings.HasSuffix(l, ")") { // not a stack frame (PC=..., "signal arrived during cgo execution")
 			continue
 		}
 		fn = l
